@@ -1,5 +1,7 @@
 import NeoFS.Lemmas.NeoFSGas
 import NeoFS.Lemmas.AlphabetEmit
+import NeoFS.Generated.Consts
+import NeoFS.Generated.Footprint
 /-! # C19 — GAS handled by the governance contracts is accounted exactly
 
 Property theorems only. Models: `NeoFS/Model/NeoFSMain.lean` (OnNEP17Payment, Withdraw, Cheque,
@@ -162,6 +164,68 @@ theorem cheque_pays_exact_amount_once (w : World) (s : State) (env : Env) (id : 
   obtain ⟨h3, _⟩ := cheque_effect h
   exact ⟨fun hf => ⟨(h1 hf).1, (h1 hf).2.1, (h1 hf).2.2.2, (h3 hf).2⟩, h2⟩
 
+/-! ### Notary mode: only the 2n/3+1 account is the Alphabet -/
+
+/-- The n/2+1 committee-majority threshold and the 2n/3+1 Alphabet threshold (`Vote.threshold`) give the same
+multisignature account for 1, 2 and 4 keys only; for every other size (3, 5, 6, 7, …) the majority needs strictly
+fewer signatures, so its account is a different one. -/
+theorem majority_threshold_below_alphabet_threshold (n : Nat) (hn : 0 < n) :
+    n / 2 + 1 ≤ Vote.threshold n ∧ (n / 2 + 1 = Vote.threshold n ↔ n = 1 ∨ n = 2 ∨ n = 4) := by
+  unfold Vote.threshold
+  omega
+
+/-- **A cheque is paid (and the contract configured) only under the Alphabet's 2n/3+1 account.** Notary mode: when the
+transaction does not carry the witness of `w.cmt` — in particular when it carries exactly the n/2+1 majority account
+`maj ≠ w.cmt`, alone or next to unrelated accounts — `cheque`, `setConfig` and `alphabetUpdate` FAULT, and so does a
+candidate removal that carries neither the candidate's witness nor the 2n/3+1 account of the stored keys. -/
+theorem notary_needs_the_alphabet_account (w : World) (s : State) (env : Env) (hnd : s.nd = false)
+    (hno : env.wit.contains w.cmt = false) :
+    (∀ id u a l, step w s env (.cheque id u a l) = none) ∧
+    (∀ id k v, step w s env (.setConfig id k v) = none) ∧
+    (∀ id ks na, step w s env (.alphabetUpdate id ks na) = none) ∧
+    (∀ k idh a, w.acc k = some a → env.wit.contains a = false → env.wit.contains s.saddr = false →
+      step w s env (.candRemove k idh) = none) := by
+  have hg : ∀ id pre, alphabetGate w s env id pre = none := by
+    intro id pre
+    simp only [alphabetGate, hnd, hno, Bool.false_eq_true, if_false, Bool.not_false, if_true]
+  refine ⟨?_, ?_, ?_, ?_⟩
+  · intro id u a l
+    simp only [step, hg]
+  · intro id k v
+    simp only [step, hg]
+  · intro id ks na
+    simp only [step, hg]
+    split <;> rfl
+  · intro k idh a hk ha hs
+    simp only [step, hk, ha, hnd, hs]
+    simp
+
+/-- … and nothing moves: with exactly the majority account `maj` (and possibly an unrelated `user`) as signers, none of
+them the Alphabet account, the invocation leaves the whole state — the GAS ledger, the configuration, the key list —
+untouched and notifies nothing. -/
+theorem majority_account_moves_nothing (w : World) (s : State) (h : Int) (maj : Hash) (users : List Hash) (op : Op)
+    (hnd : s.nd = false) (hmaj : maj ≠ w.cmt) (husers : ∀ u ∈ users, u ≠ w.cmt)
+    (hop : (∃ id u a l, op = .cheque id u a l) ∨ (∃ id k v, op = .setConfig id k v) ∨
+      (∃ id ks na, op = .alphabetUpdate id ks na)) :
+    invoke w s ⟨maj :: users, h⟩ op = (s, none) := by
+  have hno : (maj :: users).contains w.cmt = false := by
+    rw [Bool.eq_false_iff]
+    intro hc
+    rcases List.mem_cons.mp (List.contains_iff_mem.mp hc) with e | e
+    · exact hmaj e.symm
+    · exact husers _ e rfl
+  obtain ⟨h1, h2, h3, _⟩ := notary_needs_the_alphabet_account w s ⟨maj :: users, h⟩ hnd hno
+  apply invoke_fault
+  rcases hop with ⟨id, u, a, l, rfl⟩ | ⟨id, k, v, rfl⟩ | ⟨id, ks, na, rfl⟩
+  · exact h1 id u a l
+  · exact h2 id k v
+  · exact h3 id ks na
+
+/-! non-vacuity: a committee of 6 (5-of-6 Alphabet account `8…`, 4-of-6 majority account `5…`): the majority account
+pays nothing, the Alphabet account pays the cheque; thresholds for n = 3..7 -/
+example : (List.range 8).map (fun n => (n / 2 + 1, Vote.threshold n)) =
+    [(1, 1), (1, 1), (2, 2), (2, 3), (3, 3), (3, 4), (4, 5), (4, 5)] := by decide
+
 /-- **Ledger identity over all histories.** After any sequence of invocations (any callers, methods, arguments;
 FAULTs are rolled back), in either mode: the contract's GAS balance equals its initial balance plus everything
 received (accepted deposits, candidate fees) minus the cheques paid. Hypotheses are the harness's account
@@ -190,6 +254,12 @@ def exHist : List (Env × Op) :=
    (⟨[List.replicate 20 8], 4⟩, .cheque [1] (List.replicate 20 11) 50 [2]),
    (⟨[List.replicate 20 11], 5⟩, .deposit (List.replicate 20 11) 0 .null)]
 example : flows exW exS exHist = (111, 50) := by decide
+example : ((invoke exW { exS with gas := fun h => if h = exW.self then 100 else 0 } ⟨[List.replicate 20 5], 4⟩
+    (.cheque [1] (List.replicate 20 11) 50 [2])).1.gas exW.self,
+  (invoke exW { exS with gas := fun h => if h = exW.self then 100 else 0 } ⟨[List.replicate 20 5, List.replicate 20 12], 4⟩
+    (.cheque [1] (List.replicate 20 11) 50 [2])).2.isNone,
+  (invoke exW { exS with gas := fun h => if h = exW.self then 100 else 0 } ⟨[List.replicate 20 8], 4⟩
+    (.cheque [1] (List.replicate 20 11) 50 [2])).1.gas exW.self) = (100, true, 50) := by decide
 example : (run exW exS exHist).gas exW.self = 61 := by decide
 example : (run exW exS exHist).gas (List.replicate 20 11) = 1000 - 100 - 7 + 50 := by decide
 example : (run exW exS exHist).gas exS.proc = 7 := by decide
@@ -357,5 +427,31 @@ theorem proxy_and_processing_refuse_neo (w : Gov) (s : GState) (wit : List Hash)
                 | (split at hn
                    · cases hn
                    · rename_i hc; exact hc hrej)
+
+/-! ## Frame of the model, regenerated: which methods can move GAS or NEO
+
+Checked by kernel evaluation over `NeoFS.Generated.Footprint.table` (grouped by contract: `contracts`), the MAY-WRITE footprint recomputed from the Go sources on
+every run (`extract footprint`; `Model/Footprint.lean`): rows of kind `call` named `transfer` are the calls of `gas.Transfer` /
+`neo.Transfer` (and of any contract's `transfer` with write permission) reachable from the method. -/
+section Footprint
+open NeoFS.Footprint NeoFS.Generated.Footprint
+
+/-- GAS can leave or be moved by the NeoFS contract only in `withdraw` (fee), `innerRingCandidateAdd` (fee) and `cheque` (payout);
+by an Alphabet contract only in `emit` (and when deployment forwards its GAS); Proxy and Processing never transfer anything. The
+deposit/withdraw/cheque notifications come from their methods only. -/
+theorem token_transfers_only_from_the_documented_methods :
+    namedOnlyBy contracts "neofs" "call" "transfer" ["withdraw", "innerRingCandidateAdd", "cheque"] = true ∧
+    namedOnlyBy contracts "alphabet" "call" "transfer" ["emit", "_deploy"] = true ∧
+    namedOnlyBy contracts "proxy" "call" "transfer" [] = true ∧ namedOnlyBy contracts "processing" "call" "transfer" [] = true ∧
+    namedOnlyBy contracts "neofs" "notify" "Deposit" ["onNEP17Payment"] = true ∧
+    namedOnlyBy contracts "neofs" "notify" "Withdraw" ["withdraw"] = true ∧
+    namedOnlyBy contracts "neofs" "notify" "Cheque" ["cheque"] = true := by decide +kernel
+
+example : named contracts "neofs" "cheque" "call" "transfer" = true ∧ named contracts "neofs" "withdraw" "call" "transfer" = true ∧
+    named contracts "alphabet" "emit" "call" "transfer" = true ∧ named contracts "neofs" "onNEP17Payment" "notify" "Deposit" = true := by
+  decide +kernel
+example : namedOnlyBy (withRow contracts ⟨"neofs", "bind", "call", "gas.transfer", "transfer", [], false⟩)
+    "neofs" "call" "transfer" ["withdraw", "innerRingCandidateAdd", "cheque"] = false := by decide +kernel
+end Footprint
 
 end NeoFS.Props.C19
